@@ -753,6 +753,7 @@ type pairArgs struct {
 	// Other: a second document merged with the short (resp. long) one; Mode says how:
 	//   "file-after"  config files [short, other]      "doc-after"  one file, two YAML documents short --- other
 	//   "file-before" config files [other, short]      "doc-before" one file, other --- short
+	//   "extends"     one document: the short/long attribute in service xbase, `other`'s service s extends xbase
 	Other any    `json:"other,omitempty"`
 	Mode  string `json:"mode,omitempty"`
 }
@@ -783,6 +784,30 @@ func realPair(raw json.RawMessage) any {
 	if a.Other != nil {
 		ob, _ := json.Marshal(a.Other)
 		switch a.Mode {
+		case "extends":
+			// one document: the short (long) attribute sits in service xbase, service s extends xbase and carries the
+			// refinement (override.ExtendService on the raw values, before any Canonical)
+			for _, n := range []string{"short.yaml", "long.yaml"} {
+				c, ok := files[n]
+				if !ok {
+					continue
+				}
+				var d map[string]any
+				var o map[string]any
+				json.Unmarshal([]byte(c), &d)
+				json.Unmarshal(ob, &o)
+				svcs, _ := d["services"].(map[string]any)
+				osvcs, _ := o["services"].(map[string]any)
+				ns, _ := osvcs["s"].(map[string]any)
+				if svcs == nil || ns == nil {
+					return map[string]any{"bad": "extends mode needs services.s in both documents"}
+				}
+				svcs["xbase"] = svcs["s"]
+				ns["extends"] = map[string]any{"service": "xbase"}
+				svcs["s"] = ns
+				b, _ := json.Marshal(d)
+				files[n] = string(b)
+			}
 		case "file-after":
 			files["other.yaml"] = string(ob)
 			namesOf = func(n string) []string { return []string{n, "other.yaml"} }
